@@ -76,6 +76,18 @@ def run(chk):
             if len(pubs) < 9:
                 raise AnalysisBroken("only %d public methods found for %s" % (len(pubs), cls))
             e2.rule_clean(eng0, chk, cfg, pubs, PTRS, [{}], rule="STALE.pointers")
+        # ClipperOffset keeps raw pointers to the caller's result objects (solution, solution_tree): every Execute overload must set
+        # both before they are read - a pointer left from an earlier call may point to a destroyed object
+        from .c12 import offset_table
+        engo = e2.E2(db, chk, cfg, ["ClipperOffset"])
+        OFFT, _why = offset_table(db)
+        PTR = dict(OFFT)
+        PTR["dbu"] = {"solution": 1, "solution_tree": 1}
+        PTR["allow"] = dict(OFFT["allow"])
+        for k in OFFT["dbu"]:
+            if k not in PTR["dbu"]:
+                PTR["allow"][k] = "not a pointer (decided under C12)"
+        e2.rule_dbu(engo, chk, cfg, db.find("ClipperOffset::Execute"), PTR, [{"deltaCallback64_": False}, {"deltaCallback64_": True}], rule="STALE.pointers")
         # dangling OutPt2 pointers: the lists that point into op_container_ are emptied whenever it is reset
         eng = e2.E2(db, chk, cfg, ["RectClip64", "RectClipLines64"])
         for q in ("RectClip64::Execute", "RectClipLines64::Execute"):
